@@ -225,6 +225,15 @@ pub fn c03_repeatable_56() {
 
 // @harness props=C03 tier=quick panic=forbid
 // @encodes as c03_modules_56
+// @bound 32-byte region with a tiling walk (<= 3 tags); module tags of size >= 16
+#[cfg_attr(kani, kani::proof)]
+#[cfg_attr(kani, kani::unwind(6))]
+pub fn c03_modules_32() {
+    modules::<32>();
+}
+
+// @harness props=C03 tier=thorough panic=forbid timeout=1500
+// @encodes as c03_modules_56
 // @bound 40-byte region with a tiling walk (<= 4 tags); module tags of size >= 16
 #[cfg_attr(kani, kani::proof)]
 #[cfg_attr(kani, kani::unwind(7))]
